@@ -160,6 +160,25 @@ def entry_points(T: str, D: str, variant: int = 0):
         castDT = yD.astype(T)
     eps.append(("polynomial_from_attributes([x_T, y_D])", lambda: numpoly.polynomial_from_attributes([[0], [1]], [xT, yD], names=("q0",)), {(0,): xT, (1,): castDT}))
     eps.append(("polynomial({..: x_T, ..: y_D})", lambda: numpoly.polynomial({(0,): xT, (2,): yD}, names=("q0",)), {(0,): xT, (2,): castDT}))
+    # lists / tuples whose elements have different types, with a dtype requested: numpy's own single cast of each element
+    with numpy.errstate(all="ignore"):
+        try:
+            mixed = [xT[0].item(), yD[1].item(), xT[2].item()]
+            want = numpy.array([numpy.asarray(v).astype(D) for v in (xT[0], yD[1], xT[2])], dtype=D) if variant == 0 else None
+            if want is not None and all(isinstance(v, (int, float, bool)) for v in mixed):
+                eps.append(("polynomial([x_T, y_D, x_T] as python numbers, dtype=D)", lambda: numpoly.polynomial(mixed, dtype=D), {(0,): numpy.array([numpy.array(v).astype(D) for v in mixed], dtype=D)}))
+            if variant == 0:
+                eps.append(("polynomial((p_T, p_D) tuple of polynomials, dtype=D)", lambda: numpoly.polynomial((numpoly.polynomial(xT[0]), numpoly.polynomial(yD[1])), dtype=D),
+                            {(0,): numpy.array([xT[:1].astype(D)[0], yD[1:2].astype(D)[0]], dtype=D)}))
+            if variant == 1 and numpy.dtype(T).kind in "iu" and numpy.dtype(T).itemsize == 8 and numpy.dtype(D).kind == "f":
+                # 64-bit integers next to floats, an integer type requested: each element is cast once (no detour through the
+                # common float type, which cannot hold 2**53+1)
+                big = 2 ** 53 + 1
+                eps.append(("polynomial([2**53+1, 1.5], dtype=T)", lambda: numpoly.polynomial([big, 1.5], dtype=T), {(0,): numpy.array([big, 1], dtype=T)}))
+                eps.append(("polynomial((p_T(2**53+1), p_D(1.5)), dtype=T)", lambda: numpoly.polynomial((numpoly.polynomial(numpy.array(big, dtype=T)), numpoly.polynomial(numpy.array(1.5, dtype=D))), dtype=T),
+                            {(0,): numpy.array([big, 1], dtype=T)}))
+        except (TypeError, ValueError, OverflowError):
+            pass
     if T == D:
         eps.append(("variable(dtype=D)", lambda: numpoly.variable(2, dtype=D), {(1, 0): numpy.array([1, 0], dtype=D), (0, 1): numpy.array([0, 1], dtype=D)}))
         eps.append(("symbols(dtype=D)", lambda: numpoly.symbols("q0 q1", dtype=D), {(1, 0): numpy.array([1, 0], dtype=D), (0, 1): numpy.array([0, 1], dtype=D)}))
@@ -298,6 +317,11 @@ def own_body(ctx: H.BaseCtx):
                 ("empty slice + 1", lambda: a[3:] + 1, (0,)),
                 ("empty slice * p", lambda: a[3:] * a[:0], (0,)),
                 ("sum of empty slice", lambda: numpoly.sum(a[3:]), ()),
+                ("where on empty slices", lambda: numpoly.where(numpy.ones((0,), dtype=bool), a[3:], a[:0] + 1), (0,)),
+                ("where(empty condition, empty, scalar)", lambda: numpoly.where(numpy.zeros((0,), dtype=bool), a[3:], a.ravel()[0]), (0,)),
+                ("concatenate of empty slices", lambda: numpoly.concatenate([a[3:], a[:0]]), (0,)),
+                ("empty slice ** 2", lambda: a[3:] ** 2, (0,)),
+                ("negative of empty slice", lambda: -a[3:], (0,)),
             ):
                 r = f()
                 if tuple(r.shape) != shape:
